@@ -41,7 +41,7 @@ def check(ctx):
     rep.floor("filter evaluation entry points", len(EE), 18)
     n = in_memory_only(ctx, rep)
     rep.floor("constructions of the filter lexer/parser", n, 2)
-    pr = panic.PanicRule(ctx)
+    pr = panic.PanicRule(ctx, parsed_timestamps_only=True)
     reach, nsites = pr.run(E, rep)
     rep.floor("potential panic sites examined", nsites, 40)
     lr = loops.LoopRule(ctx, eof_only_errors=True)
@@ -56,6 +56,7 @@ def check(ctx):
     recursion.check_guard_balance(ctx, rep)
     rep.floor("recursive call-graph cycles examined", len(sccs), 4)
     rep.assume("A2: a caller-supplied PathResolver returns (its results are unconstrained, which is why only visited sets certify ref chasing)")
+    rep.assume("timestamps in scope are parsed (0000-9999): chrono's local-time accessors panic only within a day of its +-262143-year limits")
     rep.assume("A6: fewer than 2^64 loop iterations per run")
     return ("R-PANIC over %d bodies reachable from the filter parser and evaluator (%d sites); R-LOOP over %d loops: %d by the scanner-measure abstract "
             "interpreter (in-memory reader: checked that the parser is only built over Cursor<&[u8]>), %d finite producers, %d visited-set/work-list "
